@@ -695,6 +695,9 @@ class Runner:
         elif cn == "Lexer":
             from microjs.lexer import Lexer
             o = Lexer("")
+        elif cn == "RegexParser":
+            from microjs.regex.parser import RegexParser
+            o = RegexParser("")
         elif objs.get("__heap__"):
             o = object()            # a host object of a class the script never sees (placeholder in a counter-model)
         else:
